@@ -54,6 +54,9 @@ Poll ==
   /\ hist' = Append(hist, [op |-> "poll", ret |-> ret', active |-> active', rate |-> rate', swaps |-> swaps'])
   /\ UNCHANGED file
 Next == Edit \/ Poll
+\* ConfigReloader::run: thread::sleep(rate) before every poll, with the rate of that moment (the initial one from
+\* init_file, afterwards the one of the last applied file)
+Sleeps(ms) == alive /\ ms = rate
 Spec == Init /\ [][Next]_vars
 \* a changed valid file is applied together with its refresh rate
 AppliesValid == [][ (Poll /\ file.c.k = "valid" /\ file.c # lastPolled) => (active' = file.c.v /\ (file.c.r # 0 => rate' = file.c.r)) ]_vars
